@@ -209,6 +209,9 @@ CLAIMED["C02"] = dict(
          "gives DISCONNECTED with the key untouched, a decode failure leaves the state untouched (C02_bad_hello_no_key); the server "
          "calls _onConnect only while processing a datagram that AES-GCM opened under the connection's key and that carries a "
          "CHALLENGE_RESP with the token of the temp-pool entry (C02_promote_only_on_proof, for every datagram, state and message list); "
+         "at the level of the server loop a connect event for an address is produced only while handling such a datagram from that very "
+         "address against the session key and token of its half-open entry, and by nothing else in an iteration "
+         "(C02_loop_connect_only_on_proof, C02_loop_connect_from_datagram); "
          "under the explicit honest-party laws (signature verifies, ECDH agrees, encodings round-trip) both ends hold the same key and "
          "token, the client is CONNECTED and the server promotes exactly once (C02_honest_agree). Model tied to connection.py/context.py "
          "by recorded differentials of real three-way handshakes (real P-256/ECDSA/ECDH/AES-GCM) under 14 attack scripts, with an "
